@@ -236,8 +236,7 @@ func (x *Ctx) tierGuards(r *core.Result, rs *core.RuleStat) {
 		r.Undecided(rs, "ParseJSONFloatPrefix", "-", "function not found")
 		return
 	}
-	var rf, exact, slowSet, slowBits *ssa.Call
-	var eisel []*ssa.Call
+	var rf, slowSet, slowBits *ssa.Call
 	for _, b := range fn.Blocks {
 		for _, ins := range b.Instrs {
 			c, ok := ins.(*ssa.Call)
@@ -247,10 +246,6 @@ func (x *Ctx) tierGuards(r *core.Result, rs *core.RuleStat) {
 			switch c.Call.StaticCallee().Name() {
 			case "readFloat":
 				rf = c
-			case "atof64exact":
-				exact = c
-			case "eiselLemire64":
-				eisel = append(eisel, c)
 			case "set":
 				slowSet = c
 			case "floatBits":
@@ -258,27 +253,14 @@ func (x *Ctx) tierGuards(r *core.Result, rs *core.RuleStat) {
 			}
 		}
 	}
-	if rf == nil || exact == nil || len(eisel) != 2 || slowSet == nil || slowBits == nil {
-		r.Undecided(rs, "ParseJSONFloatPrefix:shape", w.Pos(fn.Pos()), fmt.Sprintf("expected calls readFloat, atof64exact, eiselLemire64 x2, decimal.set, floatBits; found readFloat=%v exact=%v eisel=%d set=%v floatBits=%v", rf != nil, exact != nil, len(eisel), slowSet != nil, slowBits != nil))
+	if rf == nil || slowSet == nil || slowBits == nil {
+		r.Undecided(rs, "ParseJSONFloatPrefix:shape", w.Pos(fn.Pos()), fmt.Sprintf("expected calls readFloat, decimal.set, floatBits; found readFloat=%v set=%v floatBits=%v", rf != nil, slowSet != nil, slowBits != nil))
 		return
 	}
 	mant, exp, neg, trunc, n, okv := extractOf(rf, 0), extractOf(rf, 1), extractOf(rf, 2), extractOf(rf, 3), extractOf(rf, 4), extractOf(rf, 5)
 	if mant == nil || exp == nil || neg == nil || trunc == nil || n == nil || okv == nil {
 		r.Undecided(rs, "ParseJSONFloatPrefix:readFloat", w.Pos(rf.Pos()), "not all six results of readFloat are used")
 		return
-	}
-	// which eisel call is the upper-bound re-check: its first argument is mantissa + 1
-	var e1, e2 *ssa.Call
-	for _, c := range eisel {
-		if add, ok := c.Call.Args[0].(*ssa.BinOp); ok && add.Op == token.ADD && add.X == ssa.Value(mant) {
-			if k, ok := constBig(add.Y); ok && k.Int64() == 1 {
-				e2 = c
-				continue
-			}
-		}
-		if c.Call.Args[0] == ssa.Value(mant) {
-			e1 = c
-		}
 	}
 	check := func(key string, cond bool, pos token.Pos, msg string) {
 		rs.Instances++
@@ -288,41 +270,24 @@ func (x *Ctx) tierGuards(r *core.Result, rs *core.RuleStat) {
 			r.Fail(rs, "ParseJSONFloatPrefix:"+key, w.Pos(pos), msg)
 		}
 	}
-	check("exact-args", exact.Call.Args[0] == ssa.Value(mant) && exact.Call.Args[1] == ssa.Value(exp) && exact.Call.Args[2] == ssa.Value(neg), exact.Pos(),
-		"atof64exact is not given readFloat's (mantissa, exp, neg)")
-	check("eisel-args", e1 != nil && e1.Call.Args[1] == ssa.Value(exp) && e1.Call.Args[2] == ssa.Value(neg), fn.Pos(),
-		"eiselLemire64 is not given readFloat's (mantissa, exp, neg)")
-	check("eisel-upper-args", e2 != nil && e2.Call.Args[1] == ssa.Value(exp) && e2.Call.Args[2] == ssa.Value(neg), fn.Pos(),
-		"the upper-bound re-check is not eiselLemire64(mantissa+1, exp, neg) with the same exp/neg")
-	if e1 == nil || e2 == nil {
-		return
-	}
-	truncFalseDom := func(b *ssa.BasicBlock) bool { return x.dominatedByBool(b, trunc, false) }
-	// returns
+	tj := &tierJudge{x: x, r: r, rs: rs, check: check, slowBits: slowBits}
+	roles := fpRoles{mant: mant, exp: exp, neg: neg, trunc: trunc}
+	tj.argChecks(fn, roles)
 	for _, b := range fn.Blocks {
 		ret, ok := b.Instrs[len(b.Instrs)-1].(*ssa.Return)
 		if !ok || len(ret.Results) != 3 {
 			continue
 		}
-		okReturn := isNilConst(ret.Results[2])
-		val := ret.Results[0]
-		switch {
-		case okReturn && val == ssa.Value(extractOf(exact, 0)):
-			check("exact-guard", truncFalseDom(b) && x.dominatedByBool(b, extractOf(exact, 1), true), ret.Pos(),
-				"the exact-arithmetic result is returned although the mantissa may have been truncated or atof64exact reported failure")
-			check("exact-offset", ret.Results[1] == ssa.Value(n), ret.Pos(), "a successful return does not carry readFloat's offset")
-		case okReturn && val == ssa.Value(extractOf(e1, 0)):
-			okDom := x.dominatedByBool(b, extractOf(e1, 1), true)
-			tf := truncFalseDom(b)
-			// or: ok2 && f2 == fUp
-			eq := x.dominatedByEquality(b, extractOf(e1, 0), extractOf(e2, 0)) && x.dominatedByBool(b, extractOf(e2, 1), true)
-			check("eisel-guard", okDom && (tf || eq), ret.Pos(),
-				"an Eisel-Lemire result is returned for a truncated mantissa without confirming it with the upper mantissa bound (f == fUp), or although the algorithm reported failure")
-			check("eisel-offset", ret.Results[1] == ssa.Value(n), ret.Pos(), "a successful return does not carry readFloat's offset")
-		case okReturn:
-			// slow path result or zero
-			check("slow-offset", ret.Results[1] == ssa.Value(n) || isZeroConst(ret.Results[1]), ret.Pos(), "a successful return does not carry readFloat's offset")
+		for _, rc := range splitReturn(ret) {
+			if !isNilConst(rc.vals[2]) && (x.knownNonNilError(rc.vals[2]) || x.dominatedByNonNil(rc.at, rc.vals[2])) {
+				continue // an error return; every other return may be a success
+			}
+			tj.judge(fn, roles, rc.vals[0], rc.at, nil, ret.Pos(), 0)
+			check("offset", rc.vals[1] == ssa.Value(n) || (isZeroConst(rc.vals[1]) && isZeroConst(rc.vals[0])), ret.Pos(), "a successful return does not carry readFloat's offset")
 		}
+	}
+	if tj.nExact == 0 || tj.nEisel == 0 {
+		r.Undecided(rs, "ParseJSONFloatPrefix:tiers", w.Pos(fn.Pos()), fmt.Sprintf("expected the exact-arithmetic and Eisel-Lemire tiers to produce results; found %d / %d guarded returns", tj.nExact, tj.nEisel))
 	}
 	// the slow path converts data[:n]
 	if sl, ok := slowSet.Call.Args[1].(*ssa.Slice); !ok || sl.High != ssa.Value(n) || sl.Low != nil {
@@ -335,14 +300,257 @@ func (x *Ctx) tierGuards(r *core.Result, rs *core.RuleStat) {
 	okOvf := false
 	if ovf != nil {
 		for _, ref := range *ovf.Referrers() {
-			if iff, ok := ref.(*ssa.If); ok {
-				// true branch must lead to a return with a non-nil error (possibly via a phi'd err)
-				_ = iff
+			if _, ok := ref.(*ssa.If); ok {
 				okOvf = true
 			}
 		}
 	}
 	check("overflow", okOvf, slowBits.Pos(), "the overflow flag of floatBits is ignored: values beyond the largest finite float64 would not be reported")
+}
+
+// fpRoles: the SSA values that play readFloat's results in the function under analysis (its own Extracts in
+// ParseJSONFloatPrefix, parameters in a helper that was handed them).
+type fpRoles struct{ mant, exp, neg, trunc ssa.Value }
+
+type tierJudge struct {
+	x              *Ctx
+	r              *core.Result
+	rs             *core.RuleStat
+	check          func(key string, cond bool, pos token.Pos, msg string)
+	slowBits       *ssa.Call
+	nExact, nEisel int
+	argsDone       map[*ssa.Function]bool
+}
+
+// tierCalls: the atof64exact / eiselLemire64 calls of fn; eiselLemire64 calls split into those on the mantissa
+// itself and those on mantissa+1.
+func (t *tierJudge) tierCalls(fn *ssa.Function, ro fpRoles) (exact, e1, e2, other []*ssa.Call) {
+	for _, b := range fn.Blocks {
+		for _, ins := range b.Instrs {
+			c, ok := ins.(*ssa.Call)
+			if !ok || c.Call.StaticCallee() == nil || !t.x.W.InLib(c.Call.StaticCallee()) {
+				continue
+			}
+			switch c.Call.StaticCallee().Name() {
+			case "atof64exact":
+				exact = append(exact, c)
+			case "eiselLemire64":
+				if add, ok := c.Call.Args[0].(*ssa.BinOp); ok && add.Op == token.ADD && add.X == ro.mant {
+					if k, ok := constBig(add.Y); ok && k.Int64() == 1 {
+						e2 = append(e2, c)
+						continue
+					}
+				}
+				if c.Call.Args[0] == ro.mant {
+					e1 = append(e1, c)
+				} else {
+					other = append(other, c)
+				}
+			}
+		}
+	}
+	return
+}
+
+func (t *tierJudge) argChecks(fn *ssa.Function, ro fpRoles) {
+	if t.argsDone == nil {
+		t.argsDone = map[*ssa.Function]bool{}
+	}
+	if t.argsDone[fn] {
+		return
+	}
+	t.argsDone[fn] = true
+	exact, e1, e2, other := t.tierCalls(fn, ro)
+	for _, c := range exact {
+		t.check("exact-args", c.Call.Args[0] == ro.mant && c.Call.Args[1] == ro.exp && c.Call.Args[2] == ro.neg, c.Pos(), "atof64exact is not given readFloat's (mantissa, exp, neg)")
+	}
+	for _, c := range e1 {
+		t.check("eisel-args", c.Call.Args[1] == ro.exp && c.Call.Args[2] == ro.neg, c.Pos(), "eiselLemire64 is not given readFloat's (mantissa, exp, neg)")
+	}
+	for _, c := range e2 {
+		t.check("eisel-upper-args", c.Call.Args[1] == ro.exp && c.Call.Args[2] == ro.neg, c.Pos(), "the upper-bound re-check is not eiselLemire64(mantissa+1, exp, neg) with the same exp/neg")
+	}
+	for _, c := range other {
+		t.check("eisel-args", false, c.Pos(), "eiselLemire64 is given a mantissa that is neither readFloat's mantissa nor mantissa+1")
+	}
+}
+
+// judge: value v, returned as a success from block at of fn, is a legitimate result — produced by a tier whose
+// guard holds there. assumed lists boolean values known true (the ok a helper returns together with v).
+func (t *tierJudge) judge(fn *ssa.Function, ro fpRoles, v ssa.Value, at *ssa.BasicBlock, assumed map[ssa.Value]bool, pos token.Pos, depth int) {
+	x := t.x
+	isTrue := func(b ssa.Value) bool {
+		return b != nil && (assumed[b] || x.dominatedByBool(at, b, true))
+	}
+	truncFalse := ro.trunc != nil && x.dominatedByBool(at, ro.trunc, false)
+	exact, e1, e2, _ := t.tierCalls(fn, ro)
+	if ex, ok := v.(*ssa.Extract); ok && ex.Index == 0 {
+		if c, ok := ex.Tuple.(*ssa.Call); ok {
+			for _, ec := range exact {
+				if ec == c {
+					t.nExact++
+					t.check("exact-guard", truncFalse && isTrue(extractOf(c, 1)), pos,
+						"the exact-arithmetic result is returned although the mantissa may have been truncated or atof64exact reported failure")
+					return
+				}
+			}
+			confirm := func(a *ssa.Call, others []*ssa.Call) bool {
+				for _, o := range others {
+					if x.dominatedByEquality(at, extractOf(a, 0), extractOf(o, 0)) && isTrue(extractOf(o, 1)) {
+						return true
+					}
+				}
+				return false
+			}
+			for _, ec := range e1 {
+				if ec == c {
+					t.nEisel++
+					t.check("eisel-guard", isTrue(extractOf(c, 1)) && (truncFalse || confirm(c, e2)), pos,
+						"an Eisel-Lemire result is returned for a truncated mantissa without confirming it with the upper mantissa bound (f == fUp), or although the algorithm reported failure")
+					return
+				}
+			}
+			for _, ec := range e2 {
+				if ec == c {
+					t.nEisel++
+					t.check("eisel-guard", isTrue(extractOf(c, 1)) && confirm(c, e1), pos,
+						"the upper-bound Eisel-Lemire result is returned without agreeing with the result for the mantissa itself")
+					return
+				}
+			}
+			// a (value, ok) helper that was handed readFloat's results
+			h := c.Call.StaticCallee()
+			if h != nil && x.W.InLib(h) && len(h.Blocks) > 0 && h.Signature.Results().Len() == 2 && depth < 2 {
+				if !isTrue(extractOf(c, 1)) {
+					t.check("helper-ok", false, pos, "the result of "+h.Name()+" is returned without its ok result having been tested")
+					return
+				}
+				var hr fpRoles
+				for i, a := range c.Call.Args {
+					if i >= len(h.Params) {
+						break
+					}
+					switch a {
+					case ro.mant:
+						hr.mant = h.Params[i]
+					case ro.exp:
+						hr.exp = h.Params[i]
+					case ro.neg:
+						hr.neg = h.Params[i]
+					case ro.trunc:
+						hr.trunc = h.Params[i]
+					}
+				}
+				t.argChecks(h, hr)
+				n := 0
+				for _, b := range h.Blocks {
+					ret, ok := b.Instrs[len(b.Instrs)-1].(*ssa.Return)
+					if !ok {
+						continue
+					}
+					for _, rc := range splitReturn(ret) {
+						okv := rc.vals[1]
+						if k, isK := okv.(*ssa.Const); isK {
+							if !constant.BoolVal(k.Value) {
+								continue
+							}
+							n++
+							t.judge(h, hr, rc.vals[0], rc.at, nil, ret.Pos(), depth+1)
+						} else {
+							n++
+							t.judge(h, hr, rc.vals[0], rc.at, map[ssa.Value]bool{okv: true}, ret.Pos(), depth+1)
+						}
+					}
+				}
+				if n == 0 {
+					t.check("helper-returns", false, pos, h.Name()+" has no successful return to judge")
+				}
+				return
+			}
+		}
+	}
+	// the decimal fallback: Float64frombits of floatBits' bits, or the zero of an error return
+	if c, ok := v.(*ssa.Call); ok && c.Call.StaticCallee() != nil && c.Call.StaticCallee().Name() == "Float64frombits" && len(c.Call.Args) == 1 {
+		if c.Call.Args[0] == ssa.Value(extractOf(t.slowBits, 0)) {
+			t.check("slow-value", true, pos, "")
+			return
+		}
+	}
+	if isZeroConst(v) {
+		return
+	}
+	t.check("value", false, pos, "a successful return carries a value that is not the guarded result of one of the three tiers")
+}
+
+// retCase: one way a Return gets its results — the values and the block at whose end they are chosen.
+type retCase struct {
+	vals []ssa.Value
+	at   *ssa.BasicBlock
+}
+
+// splitReturn expands phis that sit in the returning block (and, transitively, in the predecessor they come from)
+// so that each case pairs the values that are returned together.
+func splitReturn(ret *ssa.Return) []retCase {
+	var out []retCase
+	var rec func(vals []ssa.Value, at *ssa.BasicBlock, depth int)
+	rec = func(vals []ssa.Value, at *ssa.BasicBlock, depth int) {
+		split := false
+		if depth < 6 {
+			for _, v := range vals {
+				if ph, ok := v.(*ssa.Phi); ok && ph.Block() == at {
+					split = true
+				}
+			}
+		}
+		if !split {
+			out = append(out, retCase{vals, at})
+			return
+		}
+		for i, pred := range at.Preds {
+			nv := make([]ssa.Value, len(vals))
+			for k, v := range vals {
+				if ph, ok := v.(*ssa.Phi); ok && ph.Block() == at {
+					nv[k] = ph.Edges[i]
+				} else {
+					nv[k] = v
+				}
+			}
+			rec(nv, pred, depth+1)
+		}
+	}
+	rec(append([]ssa.Value(nil), ret.Results...), ret.Block(), 0)
+	return out
+}
+
+// dominatedByNonNil: block b is reached only when `v != nil` held (v an error value).
+func (x *Ctx) dominatedByNonNil(b *ssa.BasicBlock, v ssa.Value) bool {
+	for d := b; d != nil; d = d.Idom() {
+		dom := d.Idom()
+		if dom == nil {
+			break
+		}
+		iff, ok := dom.Instrs[len(dom.Instrs)-1].(*ssa.If)
+		if !ok {
+			continue
+		}
+		be, ok := iff.Cond.(*ssa.BinOp)
+		if !ok || be.X != v || !isNilConst(be.Y) {
+			continue
+		}
+		var succ *ssa.BasicBlock
+		switch be.Op {
+		case token.NEQ:
+			succ = dom.Succs[0]
+		case token.EQL:
+			succ = dom.Succs[1]
+		default:
+			continue
+		}
+		if (succ == d || succ.Dominates(d)) && len(succ.Preds) == 1 {
+			return true
+		}
+	}
+	return false
 }
 
 // dominatedByBool: block b is dominated by the edge on which boolean value v has the given truth (v or !v tested by an If).
